@@ -439,3 +439,12 @@ def validate_traces(module, lines, cfg=None, shards=None, timeout=900, env=None,
         bad += r.printed("BAD")
         os.unlink(p)
     return checked, bad
+
+
+def run_resumable(exe_args, timeout=1800):
+    """Runs a crash-contained scenario interpreter (vh::ForkedRunner): one JSON line per run, including
+    {"e":"Terminate"|"Hang"|"Crash","run":k} observations.  Returns the parsed lines ordered by run."""
+    p = run(list(exe_args), timeout=timeout, check=True)
+    rows = [json.loads(l) for l in p.stdout.splitlines() if l.strip().startswith("{")]
+    rows.sort(key=lambda r: r["run"])
+    return rows
